@@ -69,12 +69,14 @@ def judge_static(d, part, o):
         if not o["q_rep_same_" + tag]:
             out.append(("C17:as_quantity-rep:%s" % d.name,
                         "as_quantity(%s %s) does not have rep %s" % (cat, d.name, d.rep)))
-        got = model.mag_key(model.mag_from_readout(o["ratio_" + tag]))
+        gm = model.mag_from_readout(o["ratio_" + tag])
+        got = model.mag_key(gm)
         dim = model.dim_key(model.dim_from_readout(o["u_" + tag]["dim"]))
         if got != exp or dim != TIME_DIM:
             out.append(("C17:as_quantity-unit:%s" % d.name,
-                        "unit of as_quantity(%s %s): ratio to seconds %s dim %s; Period is %d/%d = %s"
-                        % (cat, d.name, got, dim, d.num, d.den, exp)))
+                        "unit of as_quantity(%s %s) has ratio %s to seconds%s; Period is %d/%d"
+                        % (cat, d.name, model.mag_fraction(gm) if model.mag_is_rational(gm) else got,
+                           "" if dim == TIME_DIM else " and is not a time unit", d.num, d.den)))
         if not o["back_implicit_" + tag]:
             out.append(("C17:back-implicit-rejected:%s" % d.name,
                         "as_quantity(%s %s) is not implicitly convertible back to the duration"
@@ -235,11 +237,15 @@ def run_mixed(run, cfg, durs, pairs, lo8, hi8):
     probe([p for p in pairs if not pred[p]], "reject", "mxr")
     todo = [p for p in pairs if pred[p]] + [p for p in pairs if not pred[p] and
                                             all(v == "accept" for v in verdict[p].values())]
+    # pairs over the same two periods share most template instantiations: keep them in one TU
+    np_ = len(G.PERIODS)
+    todo.sort(key=lambda p: (min(p[0] % np_, p[1] % np_), max(p[0] % np_, p[1] % np_), p))
     idx = {k: p for k, p in enumerate(todo)}
     insts = [(k, durs[i], durs[j]) for k, (i, j) in idx.items()]
     n = max(1, min(core.NCPU * 2, len(insts)))
+    sz = -(-len(insts) // n)
     bad = []
-    S, V = _build_run(run, cfg, "mx", emit, [insts[k::n] for k in range(n)], ["-O1"], failed=bad)
+    S, V = _build_run(run, cfg, "mx", emit, [insts[k:k + sz] for k in range(0, len(insts), sz)] or [[]], ["-O1"], failed=bad)
     if bad:
         again = [x for g in bad for x in g]
         probe([idx[k] for k, _, _ in again], "accept", "mxa")
